@@ -96,6 +96,13 @@ def collect_programs(tier, family, res, rng, tiers=None):
             fresh += 1
     info.append({'config': 'random-deep (python generator, code -> spec only)',
                  'generated': len(deep), 'distinct_new': fresh, 'depths': list(rp['depths'])})
+    # the canonical input of every open finding of this property is always executed
+    # (the KNOWN-FINDING line does not depend on what the samples happen to contain)
+    for f in common.load_findings()['findings']:
+        if f['status'] == 'open' and f['property'] == res.prop and 'canonical' in f \
+                and f.get('match', {}).get('family') == 'pipeline':
+            chosen.setdefault(json.dumps(f['canonical']['prog'], sort_keys=True),
+                              {'prog': f['canonical']['prog'], 'mv': None})
     res.coverage['configs'] = info
     return list(chosen.values())
 
